@@ -197,3 +197,35 @@ def strip_factor(t):
         inner, k = strip_factor(t.args[0])
         return inner, k * t.args[1]
     return t, sp.Integer(1)
+
+
+def meta_lexer(model):
+    """the reader function that lexes "key=value ..." (holds the metadata regex and the tag list)."""
+    par, make, lexers, raw, rmod = reader_funcs(model)
+    lex = [f for f in rmod.functions.values()
+           if any((call_name(c) or '') in ('re.compile', 'compile') for c in calls_in(f.node)) and len(f.node.args.args) == 1
+           and any(isinstance(n, ast.Constant) and n.value == 'tag' for n in ast.walk(f.node))]
+    if len(lex) != 1:
+        raise AnalysisError('DS9', 'ds9 read', 'metadata lexer (regex + tag list) not identified')
+    return lex[0]
+
+
+def regex_hooks():
+    import re
+
+    def compile_(ev, a, k):
+        if a and isinstance(a[0], Const) and isinstance(a[0].v, str):
+            return Obj('regex', {'pattern': a[0]}, None)
+        return NotImplemented
+
+    def findall(ev, a, k):
+        base = a[0]
+        if isinstance(base, Obj) and base.cls == 'regex' and len(a) == 2 and isinstance(a[1], Const):
+            out = []
+            for mt in re.findall(base.fields['pattern'].v, a[1].v):
+                out.append(Tup(tuple(Const(x) for x in mt)) if isinstance(mt, tuple) else Const(mt))
+            return Tup(tuple(out), 'list')
+        return NotImplemented
+    return {'re.compile': compile_, 'method:findall': findall}
+
+
